@@ -265,7 +265,7 @@ def check(ctx):
                     a2 = ex.expand(r.value.args[2])
                     m = match("ResourceUsageReport($x.rows)", a2) or match("ResourceUsageReport(list($x.rows))", a2) or \
                         match("ResourceUsageReport($x.rows[:])", a2) or match("ResourceUsageReport($x.rows.copy())", a2)
-                    if m and match("_ResourceUsage()", m['x']):
+                    if m and any(match("_ResourceUsage()", x_) for x_ in ast.walk(m['x'])):
                         # the same ledger object must be the one handed to the pass: follow hoisted locals to the
                         # ResourceUsageReport(<name>.rows) call and compare the definition of <name> at both places
                         fl = flow_of(calc)
@@ -290,10 +290,27 @@ def check(ctx):
                             else:
                                 break
                         led = arg0.value if isinstance(arg0, ast.Attribute) and arg0.attr == 'rows' else None
-                        led_def = fl.unique_def(led.id, at) if isinstance(led, ast.Name) else None
+
+                        def root_def(e, at_):
+                            """definition of the object an expression reads: attribute paths stripped to their root name (a ledger
+                            kept in a per-call holder object), plain aliases followed"""
+                            for _ in range(8):
+                                while isinstance(e, ast.Attribute):
+                                    e = e.value
+                                if not isinstance(e, ast.Name) or at_ is None:
+                                    return None
+                                d_ = fl.unique_def(e.id, at_)
+                                if d_ is None:
+                                    return None
+                                if d_.value is not None and isinstance(d_.value, (ast.Name, ast.Attribute)) and d_.node is not None:
+                                    e, at_ = d_.value, d_.node
+                                    continue
+                                return d_
+                            return None
+                        led_def = root_def(led, at) if led is not None else None
                         passed = [c for f2, c in sched.pass_call_sites(ctx, S) if f2 is calc]
-                        if led_def is not None and passed and all(any(isinstance(a, ast.Name) and fl.unique_def(a.id, cfgc.node_containing(c)) is led_def
-                                                                     for a in c.args) for c in passed):
+                        if led_def is not None and passed and all(any(root_def(a, cfgc.node_containing(c)) is led_def
+                                                                     for a in c.args if isinstance(a, (ast.Name, ast.Attribute))) for c in passed):
                             o.site(calc, r, src(rep))
                         else:
                             o.refute(calc, r, r.value.args[2], "the report is not built from the ledger handed to the scheduling pass")
@@ -364,7 +381,8 @@ def check(ctx):
             if not rets:
                 o.refute(f, f.node, 'search', "search never returns a date")
             for r in rets:
-                conds = facts.node_conditions(prog, f, r, ctx.typer)
+                from .sched_fill import norm_conds
+                conds = norm_conds(facts.node_conditions(prog, f, r, ctx.typer))
                 hit = False
                 for t, pol in conds:
                     pt = sched.sign_test(t, pol)
@@ -1078,6 +1096,49 @@ def resource_table(ctx, o, Ss):
             o.undecided(init, init.node, '__init__', "resource table initialisation not found")
 
 
+def _calendar_kept(ctx, o, rinit):
+    """the resource answers from the calendar it was given.  Storing a copy (`calendar.clone()`) is the same only if the copy is
+    complete: a clone() that does not hand every constructor parameter the instance stores verbatim back to the constructor
+    (e.g. the validity bounds start / end of a weekly calendar) yields a calendar that offers capacity on other days."""
+    prog = ctx.prog
+    ex = Expander(prog, rinit, ctx.typer)
+    for st, tgt, val in facts.attr_stores(rinit):
+        if 'calendar' not in tgt.attr:
+            continue
+        v = ex.expand(val, cfg_of(rinit).node_of(st))
+        for conds, case in sched.expr_cases(v):
+            if not (isinstance(case, ast.Call) and isinstance(case.func, ast.Attribute) and case.func.attr == 'clone' and not case.args):
+                continue
+            only = [m_['c'].id for t_, p_ in conds for m_ in [match("isinstance($x, $c)", t_)] if m_ and p_ and isinstance(m_['c'], ast.Name)]
+            classes = [ci for ci in prog.subclasses('IWorkCalendar') if 'clone' in ci.methods and (not only or ci.name in only)]
+            for ci in classes:
+                cl, init = ci.methods['clone'], ci.methods.get('__init__')
+                if init is None:
+                    continue
+                kept = []
+                for n in walk_no_nested(init.node):
+                    if isinstance(n, ast.Assign) and isinstance(n.value, ast.Name) and n.value.id in init.params[1:] and \
+                            any(isinstance(t, ast.Attribute) and isinstance(t.value, ast.Name) and t.value.id == init.params[0] for t in n.targets):
+                        kept.append(n.value.id)
+                rets = [r for r in walk_no_nested(cl.node) if isinstance(r, ast.Return) and r.value is not None]
+                for r in rets:
+                    rv = Expander(prog, cl, ctx.typer).expand(r.value)
+                    if not (isinstance(rv, ast.Call) and isinstance(rv.func, ast.Name) and rv.func.id == ci.name):
+                        continue
+                    if any(isinstance(a_, ast.Starred) for a_ in rv.args) or any(k.arg is None for k in rv.keywords):
+                        continue
+                    # (the normaliser may have made keywords positional and filled skipped parameters with their defaults)
+                    passed = {p_ for p_, a_ in zip(init.params[1:], rv.args) if not (isinstance(a_, ast.Constant) and a_.value is None)} | \
+                        {k.arg for k in rv.keywords if not (isinstance(k.value, ast.Constant) and k.value.value is None)}
+                    missing = [p_ for p_ in kept if p_ not in passed]
+                    if missing:
+                        o.refute(rinit, st, st, f"the resource keeps `{src(case)}` instead of the calendar it was given, and {ci.name}.clone() builds "
+                                                f"`{src(rv)[:60]}` without {', '.join(missing)}: the copy of a calendar with these settings offers "
+                                                f"capacity on days the given calendar does not (work is booked there)")
+                    else:
+                        o.site(rinit, st, f"{ci.name}.clone() passes every stored constructor parameter")
+
+
 def default_calendar(ctx, o):
     """Resource() defaults to DEFAULT_CALENDAR = Monday-Friday, 8 units, and the calendar's public accessors hand out copies"""
     prog = ctx.prog
@@ -1124,6 +1185,7 @@ def default_calendar(ctx, o):
         if not n_pub:
             o.site(init, init.node, "no public accessor of WeeklyCalendar returns its internal table")
     rinit = prog.func('resource.Resource.__init__')
+    _calendar_kept(ctx, o, rinit)
     a = rinit.node.args
     defaults = dict(zip([x.arg for x in a.args][-len(a.defaults):], a.defaults)) if a.defaults else {}
     d = defaults.get('calendar')
